@@ -2,6 +2,8 @@
 #define SYMENGINE_SERIALIZE_CEREAL_H
 
 #include <cctype>
+#include <new>
+#include <stdexcept>
 
 #include <symengine/basic.h>
 #include <symengine/number.h>
@@ -134,6 +136,11 @@ public:
             }
         } catch (cereal::Exception &e) {
             throw SerializationError(e.what());
+        } catch (std::bad_alloc &) {
+            // a damaged length field asks for more memory than there is
+            throw SerializationError("Invalid input: size too large");
+        } catch (std::length_error &) {
+            throw SerializationError("Invalid input: size too large");
         }
     }
 
